@@ -5,9 +5,14 @@
 // inlinable function.
 package verifhook
 
+import "os"
+
 // Enabled reports whether hooks are compiled in.
 const Enabled = false
 
 func FS(kind, path string, a, b int64) {}
 
 func Pause(name string) {}
+
+// Write is f.Write(b).
+func Write(f *os.File, b []byte) (int, error) { return f.Write(b) }
